@@ -29,11 +29,11 @@ type effWrite struct {
 
 type effAnalyzer struct {
 	loopBody bool // scanning a loop body: plain assignments to the shared variables count as writes
-	pk    *packages.Package
-	info  *types.Info
-	prog  *Prog
-	memo  map[*types.Func]*effSummary
-	stack map[*types.Func]bool
+	pk       *packages.Package
+	info     *types.Info
+	prog     *Prog
+	memo     map[*types.Func]*effSummary
+	stack    map[*types.Func]bool
 }
 
 func paramIndex(info *types.Info, fd *ast.FuncDecl) map[types.Object]int {
@@ -1463,4 +1463,115 @@ func derefNamed(t types.Type) (*types.Named, bool) {
 	}
 	n, ok := t.(*types.Named)
 	return n, ok
+}
+
+// ruleSelfDependency (D12): only functions and types may mention themselves (recursion, self-referential types); the
+// name removed from their dependency list is the declaration's own name in the graph (`Type.Method` for a method,
+// not the bare method name). A variable or constant that mentions itself is an initialization loop and must stay one.
+// Decided: remove_item_inplace is called only by NewDeclFunc and NewDeclType, and its first argument is the object
+// that becomes the Name of the declaration built by the same function.
+func ruleSelfDependency(c *Ctx, rule string) {
+	pk := c.P.Pkg("base/dep")
+	if pk == nil {
+		c.Fatal("package base/dep not loaded")
+		return
+	}
+	info := pk.TypesInfo
+	allowed := map[string]bool{"base/dep.NewDeclFunc": true, "base/dep.NewDeclType": true}
+	n := 0
+	for _, fd := range c.P.FuncsOf("base/dep") {
+		if fd.Body == nil {
+			continue
+		}
+		fkey := funcKey(pk, fd)
+		inspectCalls(fd.Body, func(call *ast.CallExpr) {
+			if fn := calleeOf(info, call); fn == nil || fn.Name() != "remove_item_inplace" || len(call.Args) != 2 {
+				return
+			}
+			n++
+			if !allowed[fkey] {
+				c.Ob(rule, fkey+"/self-dependency", call, false, "a self-reference is dropped from the dependencies of a declaration that is neither a function nor a type: a variable or constant that mentions itself must be reported as a loop")
+				return
+			}
+			// the removed name is the Name of the Decl built here
+			removed := usedObj(info, call.Args[0])
+			var declName types.Object
+			ast.Inspect(fd.Body, func(m ast.Node) bool {
+				switch x := m.(type) {
+				case *ast.CallExpr:
+					if fn := calleeOf(info, x); fn != nil && fn.Name() == "NewDecl" && len(x.Args) >= 2 {
+						declName = usedObj(info, x.Args[1])
+					}
+				case *ast.KeyValueExpr:
+					if id := identOf(x.Key); id != nil && id.Name == "Name" {
+						declName = usedObj(info, x.Value)
+					}
+				}
+				return true
+			})
+			c.Ob(rule, fkey+"/self-dependency", call, removed != nil && removed == declName, "the name removed from the dependencies is the name the declaration has in the graph ("+exprString(call.Args[0])+")")
+		})
+	}
+	if n < 2 {
+		c.Ob(rule, "base/dep/remove_item_inplace", nil, false, fmt.Sprintf("%d self-dependency removals found, 2 confirmed by reading (NewDeclFunc, NewDeclType)", n))
+	}
+}
+
+// ruleQueuePartition (D13): the sorter pops runs of packages, imports, declarations and statements from its queue; a
+// run of declarations ends at an import or package clause (they are emitted at their own place, and what follows an
+// import may need it). Decided: every token the other pop functions accept for an *ast.GenDecl (Tok == token.X) is
+// excluded by a conjunct Tok != token.X in the condition under which popDecls takes a *ast.GenDecl.
+func ruleQueuePartition(c *Ctx, rule string) {
+	pk := c.P.Pkg("base/dep")
+	info := pk.TypesInfo
+	accepted := map[string]bool{}
+	for _, fk := range []string{"base/dep.Sorter.popPackages", "base/dep.Sorter.popImports"} {
+		fd := c.P.Func(fk)
+		if fd == nil || fd.Body == nil {
+			c.Ob(rule, fk, nil, false, "anchor function not found")
+			return
+		}
+		ast.Inspect(fd.Body, func(n ast.Node) bool {
+			if b, ok := n.(*ast.BinaryExpr); ok && b.Op == token.EQL {
+				if _, isTok := fieldSel(info, b.X, "Tok"); isTok {
+					if o := usedObj(info, b.Y); o != nil {
+						accepted[o.Name()] = true
+					}
+				}
+			}
+			return true
+		})
+	}
+	fd := c.P.Func("base/dep.Sorter.popDecls")
+	if fd == nil || fd.Body == nil {
+		c.Ob(rule, "base/dep.Sorter.popDecls", nil, false, "anchor function not found")
+		return
+	}
+	excluded := map[string]bool{}
+	var at ast.Node = fd
+	ast.Inspect(fd.Body, func(n ast.Node) bool {
+		ifs, ok := n.(*ast.IfStmt)
+		if !ok {
+			return true
+		}
+		for _, a := range andAtoms(ifs.Cond) {
+			if b, ok := unparen(a).(*ast.BinaryExpr); ok && b.Op == token.NEQ {
+				if _, isTok := fieldSel(info, b.X, "Tok"); isTok {
+					if o := usedObj(info, b.Y); o != nil {
+						excluded[o.Name()] = true
+						at = ifs
+					}
+				}
+			}
+		}
+		return true
+	})
+	var missing []string
+	for t := range accepted {
+		if !excluded[t] {
+			missing = append(missing, t)
+		}
+	}
+	sort.Strings(missing)
+	c.Ob(rule, "base/dep.Sorter.popDecls", at, len(accepted) >= 2 && len(missing) == 0, fmt.Sprintf("a run of declarations excludes the GenDecl tokens that popPackages / popImports take (%d tokens; not excluded: %v)", len(accepted), missing))
 }
